@@ -17,13 +17,15 @@ from mc.lib7z import seams
 MODULE = "mc.checks.c18"
 
 
-def make_callback(sched, log, yielding):
+def make_callback(sched, log, yielding, cost=0.0):
     from py7zr.callbacks import ExtractCallback
 
     class CB(ExtractCallback):
         def _ev(self, name, *args):
             if yielding:
                 sched.point("cb." + name, None)
+            if cost:
+                sched.advance(cost)  # a handler that takes a moment (virtual time)
             log.append((name,) + tuple(args))
             if yielding:
                 sched.point("cb-done." + name, None)
@@ -68,13 +70,14 @@ def execute(spec, choices, wd):
 
     log = []
     fac = c13.SchedFactory(sched)
+    fac2 = c13.SchedFactory(sched)
     obs = {}
     targets = spec.get("targets")
 
     def body():
         src = apath if spec.get("opened", "path") == "path" else io.BytesIO(blob)
         z = py7zr.SevenZipFile(src, "r")
-        cb = make_callback(sched, log, spec.get("yielding", False))
+        cb = make_callback(sched, log, spec.get("yielding", False), spec.get("handler_cost", 0.0))
         try:
             if targets is None:
                 z.extractall(factory=fac.factory, callback=cb)
@@ -82,7 +85,7 @@ def execute(spec, choices, wd):
                 z.extract(targets=list(targets), factory=fac.factory, callback=cb)
             if spec.get("second_call"):
                 z.reset()
-                z.extractall(factory=c13.SchedFactory(sched).factory, callback=cb)
+                z.extractall(factory=fac2.factory, callback=None if spec["second_call"] == "nocb" else cb)
         finally:
             z.close()
             log.append(("CLOSED",))
@@ -90,7 +93,7 @@ def execute(spec, choices, wd):
     with seams(chunk=spec.get("chunk", 8), py7zr__Thread=sched.Thread, py7zr__queue=sched.queue_module, py7zr__open=sched_open, py7zr__time=sched.time_module):
         res, exc = sched.run_main(body)
     obs.update(exc=exc, deadlock=sched.deadlock, end=sched.end_reason, leaked=sched.leaked, points=sched.points, log=list(log),
-               result=fac.result(), members=members,
+               result=fac.result(), result2=fac2.result(), members=members,
                worker_exc=[(p.name, type(p.exc).__name__) for p in sched.parts if p.exc is not None],
                order=digest(repr(log)))
     return ch, obs
@@ -98,8 +101,6 @@ def execute(spec, choices, wd):
 
 def judge(spec, obs):
     out = []
-    if spec.get("second_call"):
-        return out  # two extraction calls in one session: outside the property's quantifier; executed and counted only
     if obs["deadlock"]:
         out.append(("deadlock", str(obs["deadlock"])))
     if obs["exc"] is not None:
@@ -114,34 +115,47 @@ def judge(spec, obs):
     before, after = log[:k], log[k + 1:]
     if after:
         out.append(("event-after-close", f"{len(after)} callback(s) delivered after close() returned: {after[:3]}"))
-    if spec.get("second_call"):
-        return out  # two extraction calls in one session: outside the property's quantifier, observed only
-    sizes = dict((n, len(d)) for n, d in obs["members"])
-    delivered = dict(obs["result"])
+    if not spec.get("second_call"):
+        return out + grammar(before, obs["members"], dict(obs["result"]), "")
+    # two extraction calls in one session: the account of the first call ends with its post-processing event,
+    # the rest belongs to the second call (nothing at all if that call was made without a callback)
+    cut = next((i + 1 for i, e in enumerate(before) if e == ("post",)), len(before))
+    out += grammar(before[:cut], obs["members"], dict(obs["result"]), "call 1: ")
+    if spec["second_call"] == "nocb":
+        if before[cut:]:
+            out.append(("events-for-call-without-callback", f"{len(before[cut:])} event(s) for an extraction made without a callback: {before[cut:][:3]}"))
+    else:
+        out += grammar(before[cut:], obs["members"], dict(obs["result2"]), "call 2: ")
+    return out
+
+
+def grammar(before, members, delivered, tag):
+    out = []
+    sizes = dict((n, len(d)) for n, d in members)
     if not before or before[0] != ("pre",):
-        out.append(("preparation-not-first", f"first event is {before[:1]}"))
+        out.append(("preparation-not-first", f"{tag}first event is {before[:1]}"))
     if not before or before[-1] != ("post",):
-        out.append(("postprocess-not-last", f"last event before close is {before[-1:]}; {len(before)} events delivered of which {sum(1 for e in before if e[0] == 'post')} post"))
+        out.append(("postprocess-not-last", f"{tag}last event before close is {before[-1:]}; {len(before)} events delivered of which {sum(1 for e in before if e[0] == 'post')} post"))
     starts = [e[1] for e in before if e[0] == "start"]
     ends = [e for e in before if e[0] == "end"]
-    for n in set(starts) | {e[1] for e in ends}:
+    for n in sorted(set(starts) | {e[1] for e in ends}):
         if starts.count(n) != 1 or sum(1 for e in ends if e[1] == n) != 1:
-            out.append(("start-end-count", f"{n}: {starts.count(n)} start, {sum(1 for e in ends if e[1] == n)} end"))
+            out.append(("start-end-count", f"{tag}{n}: {starts.count(n)} start, {sum(1 for e in ends if e[1] == n)} end"))
         else:
             si = next(i for i, e in enumerate(before) if e[0] == "start" and e[1] == n)
             ei = next(i for i, e in enumerate(before) if e[0] == "end" and e[1] == n)
             if ei < si:
-                out.append(("end-before-start", n))
+                out.append(("end-before-start", tag + n))
     for e in ends:
         if e[1] in sizes and str(e[2]) != str(sizes[e[1]]):
-            out.append(("end-size", f"{e[1]}: end reports {e[2]} bytes, member has {sizes[e[1]]}"))
+            out.append(("end-size", f"{tag}{e[1]}: end reports {e[2]} bytes, member has {sizes[e[1]]}"))
     for n in delivered:
         if n not in starts:
-            out.append(("delivered-without-events", n))
+            out.append(("delivered-without-events", tag + n))
     upd = sum(int(e[1]) for e in before if e[0] == "update")
     want = sum(len(d) for d in delivered.values())
     if upd != want:
-        out.append(("update-sum", f"update events sum to {upd}, delivered members hold {want} bytes"))
+        out.append(("update-sum", f"{tag}update events sum to {upd}, delivered members hold {want} bytes"))
     return out
 
 
@@ -156,7 +170,15 @@ def specs(tier):
     out.append({"id": "1f-3m-targets", "folders": [3], "bound": 2, "chunk": 16, "targets": ("f0/m1.bin",)})
     out.append({"id": "3f-targets", "folders": [1, 2, 1], "bound": 1 if tier == "quick" else 2, "chunk": 16, "targets": ("f1/m1.bin", "f2/m0.bin", "absent")})
     out.append({"id": "1f-stream", "folders": [2], "bound": 2, "chunk": 16, "opened": "stream"})
-    out.append({"id": "two-calls(notes)", "folders": [1, 1], "bound": 0, "chunk": 64, "second_call": True, "cap": 40})  # observational only
+    # handlers that take 0.4 s of virtual time each: whatever is still queued when close() is called takes longer than a second
+    out.append({"id": "1f-3m-slow-handlers", "folders": [3], "bound": 1, "chunk": 16, "yielding": True, "handler_cost": 0.4})
+    # two extraction calls in one session (reset() between them); the second with the same callback or with none
+    out.append({"id": "two-calls", "folders": [2], "bound": 2 if tier == "quick" else 3, "chunk": 64, "second_call": "cb"})
+    out.append({"id": "two-calls-2f", "folders": [1, 1], "bound": 0, "chunk": 64, "second_call": "cb"})
+    out.append({"id": "two-calls-second-without-callback", "folders": [2], "bound": 2 if tier == "quick" else 3, "chunk": 64, "second_call": "nocb"})
+    if tier != "quick":
+        out.append({"id": "two-calls-3m", "folders": [3], "bound": 2, "chunk": 64, "second_call": "cb"})
+        out.append({"id": "two-calls-2f-second-without-callback", "folders": [1, 1], "bound": 0, "chunk": 64, "second_call": "nocb"})
     if tier != "quick":
         out.append({"id": "3f-1+1+1-yield", "folders": [1, 1, 1], "bound": 1, "chunk": 32, "yielding": True})
     return out
@@ -169,7 +191,7 @@ def shard(task):
     os.makedirs(wd, exist_ok=True)
     seen = set()
     stack = [list(prefix)]
-    n = 0
+    n = bad = 0
     while stack:
         p = stack.pop()
         ch, obs = execute(spec, p, wd)
@@ -179,12 +201,14 @@ def shard(task):
         sh.note("event-orders:" + spec["id"], obs["order"])
         sh.count("points", obs["points"])
         sh.count("transitions", len(ch.trace))
-        if spec.get("second_call"):
-            sh.note("second-call-outcomes", f"{type(obs['exc']).__name__ if obs['exc'] else 'ok'}/after-close={len(obs['log']) - 1 - obs['log'].index(('CLOSED',)) if ('CLOSED',) in obs['log'] else 'n/a'}")
         if getattr(obs, "harness_failure", None):
             sh.count("harness_failure")
         for sym, msg in judge(spec, obs):
             sh.violation({"symptom": sym, "harness": spec["id"]}, f"{spec['id']} schedule {ch.decoded()[:8]}: {msg}", {"spec": spec, "choices": ch.choices})
+            bad += 1
+        if bad >= 50:  # the verdict is settled; a broken tree can make the schedule space explode (e.g. two reporters)
+            sh.count("stopped-after-50-violations:" + spec["id"])
+            break
         if n >= spec.get("cap", 60000):
             sh.count("capped:" + spec["id"])
             break
@@ -236,10 +260,10 @@ def main(tier="quick", seed=0, only=None):
             "scheduling points: thread start/join, archive open, output create/write, queue put/get, callback entry/exit. All interleavings "
             "within the preemption bound per harness (quick 1..2, thorough 2..3; a shard that reaches 60000 executions is reported as capped). Oracle on the recorded callback sequence: preparation first, postprocess "
             "last, exactly one start then one end per processed member, end size = member size, sum of updates = bytes of delivered members, "
-            "nothing delivered after close() returns, no deadlock. distinct_nontrivial = distinct callback sequences."
+            "nothing delivered after close() returns, no deadlock, no exception from extraction or close(). Handlers taking 0.4 s each (slow-handlers) and two calls in one session are harnesses of their own. distinct_nontrivial = distinct callback sequences."
         ),
-        assumptions=["timed waits (reporter get(timeout=1), close() join(1)) fire only at quiescence, i.e. handlers are brief relative to 1 s",
-                     "two extraction calls in one session are executed but only the no-event-after-close clause is judged (outside the quantifier)"],
+        assumptions=["time is virtual: the reporter's get(timeout=1) gives up only at quiescence; a join(timeout) gives up once handlers have consumed that much virtual time (handler_cost 0.4 s per event in the slow-handlers harness, 0 elsewhere)",
+                     "two extraction calls in one session (reset() in between): each call's account is judged by the same grammar; a second call made without a callback must produce no event"],
         states=max(1, chk.counters.get("points", 0)), transitions=max(1, chk.counters.get("transitions", 0)), traces_validated_against_impl=chk.evals,
         samples=chk.samples or ["(none)"],
     )
